@@ -58,6 +58,9 @@ TRUSTED = ['CPython frame objects (f_back, f_locals, f_code, f_lineno) and sys.s
            'frames below the program (run_on_thread, threading.py) are compared by file/function/line/class/app flag '
            'and variable names; their object graphs are not recorded']
 ASSUMPTIONS = ['watch expressions and __str__ of host objects are free of side effects',
+               '"class of self" = the class the object reports (self.__class__.__name__, as isinstance sees it; equal to '
+               'type(self).__name__ except for proxies / mocks with a spec, which the generator includes); the type of a '
+               'collected VARIABLE is type(o).__name__ ("the object\'s real type name")',
                'no local refers to the frame\'s own locals() dict (known finding C07/locals-dict-self-reference)',
                'the time budget (MAX_TP_PROCESS_TIME) is not reached: the collector clock is scripted',
                'no log_msg on the snapshot tracepoint (log expressions are C16)',
